@@ -92,6 +92,7 @@ def run(tier, seed):
     res.rule = ("planted and perturbed (non-conserving) integer weights on TLC-enumerated DAGs / cyclic digraphs x k in 1..3 x "
                 "{plain, node, ignore, error_scaling, starts, ends, given weights, constraint} x {int, float}; TLC's Fit adversary "
                 "searches for k routes+weights with a strictly smaller scaled error; non-trivial = solved runs")
+    P.attribute_presolve(res, known)
     return res.finish(known, require_classes=["solved", "solved_with_error_scaling", "solved_node_mode", "solved_cyclic",
                                               "adversary_optimality_runs"])
 
